@@ -110,6 +110,7 @@ def job_zero_and_ceiling(job, nx, rows):
             continue
         rfd, rff, rho_f, rho_i = pr.value
         tag = f"nx={nx},table={rows}"
+        job.prove(f"ceiling[{tag}]/reach[path{k}]", pr.pc + [T.b_lt(T.ZERO, P(rho_f))], expect="sat")
         job.prove(f"zero[{tag}]/in-place recovery is 0 at the first time[path{k}]", pr.pc + [T.b_not(T.b_eq0(P(rfd[0])))], bound=tag, replay=rp)
         job.prove(f"zero[{tag}]/flux recovery is 0 at the first time[path{k}]", pr.pc + [T.b_not(T.b_eq0(P(rff[0])))], bound=tag, replay=rp)
         # rfd[1] <= 1 - rho_f/rho_i   <=>   rfd[1]*rho_i <= rho_i - rho_f   (rho_i > 0)
@@ -147,6 +148,7 @@ def job_flux_monotone(job, cls, nx):
             continue
         rows, rf, r = pr.value
         extra = [] if cls != "IdealReservoir" else [T.b_le(P(r.pressure_fracface), P(r.pressure_initial))]
+        job.prove(f"{tag}/flux/reach[path{k}]", pr.pc + extra, expect="sat", elim=True, abstract=False)
         for i in range(3):
             u = rows[i]
             job.prove(f"{tag}/flux stencil -u2+4u1-3u0 >= 0 at level {i}[path{k}]", pr.pc + extra + [T.b_lt(P(-u[2] + 4 * u[1] - 3 * u[0]), T.ZERO)],
